@@ -484,5 +484,5 @@ Definition cursor_ok (b : buf) (row off : Z) : Prop :=
   end.
 (* a well-formed line: its last character is "\n" and no other character starts with "\n" *)
 Definition line_wf (l : line) : Prop :=
-  exists body, l = body ++ [[10%N]] /\ Forall (fun c => b0 c <> 10%N) body.
+  exists body : list chr, l = body ++ [[10%N] : chr] /\ Forall (fun c : chr => b0 c <> 10%N) body.
 Definition buf_wf (b : buf) : Prop := Forall line_wf b.
